@@ -480,6 +480,8 @@ impl<'de> de::Deserialize<'de> for StringHashSet {
                 let mut values = StringHashSet::new();
 
                 while let Some(key) = visitor.next_key()? {
+                    // every element maps to an (empty) object; the value has to be consumed
+                    let _: serde_json::Map<String, Value> = visitor.next_value()?;
                     values.insert(key);
                 }
 
